@@ -67,6 +67,7 @@ PROPS = {
  'rm_eltorito also removes the isohybrid MBR': ('C06', 'add_fp; add_eltorito; add_isohybrid; rm_eltorito: always-consistent image has MBR boot-file address 0x84, lazy image 0 (thorough, D = 4)'),
  'modified in place can be modified in place again': ('C17', 'modify_file_in_place(/A.;1, 2049 bytes) twice: the second call refused (regression of 7b22e6a, found by the thorough tier, depth 2)'),
  "only the boot catalog's own records read as the boot catalog": ('C07', 'add_fp A; add_eltorito; add_hard_link(boot catalog -> /L.;1); rm_hard_link(/L.;1); add_hard_link(A -> /L.;1): the editing object reads 2048 bytes of boot catalog for /L.;1 (thorough sigma7, D = 5, oracle_live)'),
+ 'many short components gets its continuation area': ('C08', "add_symlink with rr_path 'c/c/.../c' (32 components): SL record flagged CONTINUE with nothing following, target read back with 31 components (thorough target-shape sweep, k components of length m)"),
  'resolve a relocated Rock Ridge directory through its link': ('C01', 'two depth-8 directories with the same Rock Ridge name in different parents: the second is missing from the Rock Ridge view (reloc-collide chain)'),
 }
 log = subprocess.run(['git', '-C', '/repo', 'log', '--reverse', '--format=%h\t%s', '1c3f835..HEAD'], stdout=subprocess.PIPE).stdout.decode().strip().splitlines()
